@@ -187,6 +187,10 @@ int main() {
     int prog;
     unsigned seed;
     if (!(is >> kind >> id >> prog >> seed)) continue;
+    // optional: pad the exported mesh with unused vertices up to this vertex count before the re-import,
+    // so that the importer takes its large-mesh code paths (CreateHalfedges switches strategy at 2^18 vertices)
+    size_t padTo = 0;
+    is >> padTo;
     std::mt19937 rng(seed);
     Manifold m = build(prog, rng);
     MeshGL64 g1 = m.GetMeshGL64();
@@ -206,7 +210,19 @@ int main() {
       fflush(stdout);
       continue;
     }
-    Manifold m2(g1);
+    MeshGL64 gin = g1;
+    if (padTo > gin.NumVert()) {
+      const size_t extra = padTo - gin.NumVert();
+      for (size_t k = 0; k < extra; ++k) {
+        // unused vertices far outside the solid, with distinct positions
+        gin.vertProperties.push_back(100.0 + 1e-3 * k);
+        gin.vertProperties.push_back(-50.0);
+        gin.vertProperties.push_back(7.0);
+        for (size_t c = 3; c < gin.numProp; ++c) gin.vertProperties.push_back(0.0);
+      }
+    }
+    os << " padded=" << gin.NumVert();
+    Manifold m2(gin);
     MeshGL64 g2 = m2.GetMeshGL64();
     os << " st2=" << (int)m2.Status();
     auto cmp = [&](bool tan, bool props, bool face, bool runs) {
